@@ -11,74 +11,91 @@ COMMON_NOTE = ("Trusted: Lean 4.33.0 kernel; axioms propext, Classical.choice, Q
                "regenerated and re-checked by the kernel). Modelled, not verified: CPython, networkx, the ANTLR runtime; ")
 
 P = {
- "C01": dict(text="Theorems about the model: every sorted, set- or dict-derived sequence the pipeline reads is a function of the multiset (S1), "
-             "one partition step and the whole refinement are equivariant under relabelling in any listing order. The full "
-             "string-invariance theorem is assembled from these with the bliss contract; parts not yet proved are named in "
-             "DESIGN.md §5. The probe evaluates the property itself on the real code (string equality under relabelling).",
-             note="igraph/bliss enters as a recorded oracle answer whose contract (a permutation of the labels; equal canonical forms "
-                  "for colour-isomorphic inputs) is validated on every call and pair of this run, not proved.",
-             tech="Lean 4 proof (equivariance, sort canonicality) + model/code correspondence + relabelling probe"),
- "C02": dict(text="Injectivity follows from reconstruction (C03): equal strings parse to the same graph. Proved so far: the pieces of the "
-             "token-level round trip listed in DESIGN.md §5; the probe compares near-miss pairs and every collision among generated "
-             "strings with an independent matcher.",
+ "C01": dict(text="Proved about the model, for every oracle meeting the bliss contract and every pair of descriptions of one molecule "
+             "(Iso SameIdent: any renumbering, any listing order of atoms and bonds, any bond orientation; no connectivity or asymmetry "
+             "hypothesis): tucanOf O g' = tucanOf O g (C01_string_invariant); the contract is inhabited. Built from sort "
+             "canonicality, equivariance of partition and refinement, the relabelling lemmas for networkx's container, and "
+             "representation independence of the serializer. The probe evaluates the property on the real code.",
+             note="igraph/bliss enters as a recorded oracle answer whose contract (a permutation of the vertices; identical canonical "
+                  "forms for colour-isomorphic inputs) is validated on every call and every generated pair of this run, not proved.",
+             tech="Lean 4 proof (equivariance + bliss contract + serializer congruence) + model/code correspondence + relabelling probe"),
+ "C02": dict(text="Proved about the model: if two molecules (domain MolAtoms) get the same string they are isomorphic as graphs coloured by "
+             "element, mass and radical (C02_injective, C02_distinct) — via reconstruction (C03), for oracles that merely return "
+             "permutations. Probe: near-miss pairs and all collisions among generated strings vs an independent matcher.",
              note="needs only that igraph returns a permutation (checked per call).",
-             tech="Lean 4 proof (partial) + correspondence + near-miss pairs vs independent isomorphism matcher"),
- "C03": dict(text="Round-trip theorems about serializer and parser models (token level), fixed point via C01; probe: real parse(tucan(G)) "
-             "vs G through an independent matcher and re-serialisation.",
-             note="", tech="Lean 4 proof (partial) + correspondence + round-trip probe"),
- "C04": dict(text="Equivariance of classes (S2, S3) proved; canonical-graph equality follows with the bliss contract and the proved "
-             "relabelling lemmas. Probe: node->(element, mass, radical, class) maps and edge sets of the real canonical graphs.",
+             tech="Lean 4 proof (injectivity via decode∘encode) + correspondence + near-miss pairs vs independent isomorphism matcher"),
+ "C03": dict(text="Proved about the model: graph_from_tucan(tucan(G)) is G under a renaming (same element/mass/radical, same adjacency, same "
+             "atom count) (C03_roundtrip); the emitted string lexes and is a sentence (C03_emitted_string_parses); the parsed graph "
+             "re-serializes to the identical string for every oracle meeting the contract (C03_fixed_point). Probe: the same on the real code "
+             "through an independent matcher.",
+             note="domain MolAtoms (table symbols, positive mass/radical, invariant code as graph_from_molecule computes it), which readers and "
+                  "parser establish; bliss contract for the fixed point.",
+             tech="Lean 4 proof (decode∘encode, fixed point) + correspondence + round-trip probe"),
+ "C04": dict(text="Proved about the model, for every oracle meeting the bliss contract: canonical graphs of two descriptions of one molecule have "
+             "labels 0…n-1, equal (element, mass, radical, class) per label and equal adjacency (C04_canonical_graph, C04_nodes_and_edges). "
+             "Probe: node maps and edge sets of the real canonical graphs; the contract is validated on every pair.",
              note="bliss contract validated per call/pair, not proved.",
-             tech="Lean 4 proof + correspondence + canonical-graph probe"),
- "C05": dict(text="Table lemmas re-checked by the kernel on the regenerated grammar (Hill order of any subset of the 118 symbols is a "
-             "subsequence of with_carbon / without_carbon; ATN and tucan.g4 agree); layout lemmas of the writers; probe: independent "
-             "validator (regular expressions from tucan.ebnf + layout rules).",
-             note="", tech="Lean 4 proof over regenerated grammar tables + correspondence + independent validator"),
- "C06": dict(text="Corollary of C01's invariance: the relation under which the pipeline is invariant constrains only identity colour and "
-             "adjacency. Probe: paired molfile renderings differing in non-identity data.",
-             note="", tech="Lean 4 proof (corollary of C01) + correspondence + paired-rendering probe"),
- "C07": dict(text="Proved: continuation splicing inverts wrapping at every length; tokenisation and keyword-scan lemmas as listed in "
-             "DESIGN.md §5. The reader model is tied to the code on thousands of spec-derived renderings; the probe compares the real "
-             "reader's result with the abstract molecule attribute for attribute.",
-             note="float parsing is opaque (coordinates are tokens).",
-             tech="Lean 4 proof (line machinery) + reader model correspondence + renderer probe"),
- "C08": dict(text="Proved: charge-code table and fixed-column lemmas as listed in DESIGN.md §5; reader model tied to the code on rendered "
-             "V2000/V3000 pairs; probe compares both readers with the abstract molecule.",
-             note="float parsing is opaque.", tech="Lean 4 proof (tables, columns) + correspondence + paired V2000/V3000 probe"),
- "C09": dict(text="Proved for every line length: physical lines <= 79 characters, each carries the prefix, and the reader's splicing "
-             "restores the logical line (the core of the write/read round trip). Probe: real write->read round trips with "
-             "length-targeted lines.",
-             note="float formatting is opaque (coordinates are pre-formatted tokens).",
-             tech="Lean 4 proof (wrap/splice for all lengths) + correspondence + length-targeted round-trip probe"),
- "C10": dict(text="The Lean reference reader (lexer + recogniser written from the grammar, tables regenerated from the ATN) is compared "
-             "with the real parser on sentences and all kinds of single-token edits: accept/reject, exception type and graph. "
-             "Proved: every rejection of the model is the parser's own exception type; recogniser lemmas as listed in DESIGN.md §5.",
+             tech="Lean 4 proof (equivariance + bliss contract + relabelling) + correspondence + canonical-graph probe"),
+ "C05": dict(text="Proved: the Hill-order formula is accepted by the grammar for every multiset of the 118 symbols and any counts; the formula "
+             "equals the element counts; each bond once as a<b in strictly ascending order; attribute blocks in strictly ascending index "
+             "order; indices in blocks of increasing atomic number; every emitted string is a Sentence of the grammar (MolAtoms domain). "
+             "Grammar tables are regenerated from the parser's ATN and re-checked by the kernel on every run. Probe: independent validator.",
+             note="positivity of mass/radical values is what the readers must establish (defect F2, repaired).",
+             tech="Lean 4 proof over regenerated grammar tables + correspondence + independent validator"),
+ "C06": dict(text="Corollary of C01's theorem: the relation under which the pipeline is invariant (Iso SameIdent) constrains only element, mass, "
+             "radical and the neighbour sets; charges, coordinates, bond records, other attributes, numbering and listing are free "
+             "(C06_identity_only, C06_identity_only_renumbered, C06_sameIdent_ignores). Probe: paired molfile renderings differing in non-identity data.",
+             note="that the readers map such renderings to Iso SameIdent-related graphs is checked by correspondence and probe (C07/C08).",
+             tech="Lean 4 proof (corollary of C01) + correspondence + paired-rendering probe"),
+ "C07": dict(text="Proved about the reader model: splicing restores a logical line split at ANY positions; tokenisation with arbitrary blank runs; "
+             "integer fields; element symbols known; D/T; explicit zero = default; the atom line under every property order with other "
+             "keywords in between and ENDPTS expansion (V3000Lines, when built). The whole reader is tied by correspondence on "
+             "spec-derived renderings and the probe compares the real reader's graph with the abstract molecule.",
+             note="float parsing is opaque (coordinates are tokens); the file-level theorem is proved for the writer's own rendering (C09), "
+                  "general renderings are covered line by line.",
+             tech="Lean 4 proof (line machinery, atom/bond lines) + reader model correspondence + renderer probe"),
+ "C08": dict(text="Proved about the V2000 reader model: fixed-width fields; M  CHG/RAD/ISO lines decoded entry by entry for any number of entries; "
+             "the property block: supersession of all atom-block codes, D/T mass kept unless named, zero = no value, unrelated lines and "
+             "everything after M  END ignored; charge-code table. Tied by correspondence on rendered V2000/V3000 pairs; probe compares both readers.",
+             note="float parsing is opaque.", tech="Lean 4 proof (columns, property block) + correspondence + paired V2000/V3000 probe"),
+ "C09": dict(text="Proved about writer and reader models, for every line length and any atom count: the written file has no line over 79 characters, "
+             "and reading it back returns the same atoms in order with the same element, charge, radical, mass, coordinate tokens and the "
+             "same bonds and bond types (C09_write_read); plus the line-level lemmas. Probe: real write→read with length-targeted lines.",
+             note="float formatting is opaque (coordinates are pre-formatted tokens); labels consecutive (as readers and parser produce).",
+             tech="Lean 4 proof (file-level write/read for all lengths) + correspondence + length-targeted round-trip probe"),
+ "C10": dict(text="The Lean reference reader (lexer + recogniser from the grammar, tables regenerated from the ATN) is compared with the real parser "
+             "on sentences, single-token edits, every element and table-neighbour pair: accept/reject, exception type, graph. Proved: "
+             "every rejection is TucanParserException; the recogniser accepts exactly the declarative grammar; the returned graph is the "
+             "denoted graph (atoms by increasing Z, bonds as a set, attributes on indexed atoms); the element table is the periodic table.",
              note="the ANTLR runtime is compared behaviourally, not verified.",
-             tech="Lean 4 reference reader + proof of reject kind + differential correspondence on token edits"),
- "C11": dict(text="Respelling invariance reduces to C01 (respellings denote isomorphic graphs) and idempotence to C03's fixed point; probe: "
-             "real norm on respellings and twice.",
-             note="", tech="Lean 4 proof (via C01/C03) + correspondence + respelling probe"),
- "C12": dict(text="Proved about the model: relabelling by an injective map preserves every attribute and bond record and adds/drops nothing; "
-             "post-state of the serializer's argument differs only in the scratch flag. The harness snapshots arguments, checks "
-             "aliasing and repeats calls on the same objects.",
+             tech="Lean 4 reference reader + proofs (reject kind, grammar, denotation) + differential correspondence on token edits"),
+ "C11": dict(text="Proved: two spellings whose listener states correspond under a renumbering inside element blocks (covers tuple order, endpoint "
+             "swaps, repeats, split/reordered attribute blocks, renumbering) parse to Iso SameIdent graphs, hence equal normal forms by C01; "
+             "idempotence by C03's fixed point. Probe: real norm on respellings and twice.",
+             note="bliss contract as in C01.", tech="Lean 4 proof (parser denotation + C01 + C03) + correspondence + respelling probe"),
+ "C12": dict(text="Proved about the model: canonicalization is an injective renaming onto 0…n-1 keeping every attribute but partition and every bond "
+             "record (for any oracle returning a permutation); the serializer's post-state differs only in the scratch flag; repeating it "
+             "gives the same string. The harness snapshots arguments, checks aliasing and repeats calls on the same objects.",
              note="value semantics of the model is faithful only without aliasing, which the harness checks.",
              tech="Lean 4 proof (relabelling lemmas) + correspondence with argument post-states + renaming probe"),
- "C13": dict(text="Proved about the model: classes are equivariant under relabelling in any listing (hence invariant under automorphisms), "
-             "and the final partition is equitable. Probe: the three clauses on the real partition attribute.",
-             note="no oracle involved.", tech="Lean 4 proof (equivariance, equitability) + correspondence + partition probe"),
- "C14": dict(text="PARTIAL. Lean carries order-obliviousness of every sorted sequence (hash-seed quantifier for the modelled code), value "
-             "semantics of the operations and an abstract lazily-filled cache theorem (every interleaving returns f k). Thread "
-             "switching inside the ANTLR runtime/networkx/igraph cannot be exhibited by the model and is sampled: subprocesses under "
-             "several PYTHONHASHSEED values and call orders, 8 threads with a 1 microsecond switch interval.",
+ "C13": dict(text="Proved about the model, no oracle: classes are equivariant under relabelling in any listing (equal round counts), invariant under "
+             "automorphisms, the final partition is equitable and classes determine the invariant code; rounds ≤ n+1. Probe: the three clauses "
+             "on the real partition attribute.",
+             note="", tech="Lean 4 proof (equivariance, equitability) + correspondence + partition probe"),
+ "C14": dict(text="PARTIAL. Lean carries order-obliviousness of every sorted sequence and of the serializer as a whole (the hash-seed quantifier for "
+             "the modelled code), value semantics, and an abstract lazily-filled cache theorem (every interleaving and history). Thread "
+             "switching inside the ANTLR runtime/networkx/igraph cannot be exhibited by the model and is sampled: subprocesses under several "
+             "PYTHONHASHSEED values and call orders, 8 threads with a 1 microsecond switch interval.",
              note="CPython scheduling is outside every theorem.",
              tech="Lean 4 proof (order-obliviousness, cache model) + multi-process/multi-thread differential"),
- "C15": dict(text="PARTIAL. Proved about the model: the BFS relabelling is defined by well-founded recursion (termination is a kernel-checked "
-             "fact), refinement is bounded by the number of atoms; the remaining totality obligations are listed in DESIGN.md §5. "
-             "Probe: the real pipeline on depth-linear families in the thousands of atoms.",
-             note="memory, bliss running time and the ANTLR runtime's own recursion are outside the model.",
-             tech="Lean 4 proof (termination/totality, partial) + correspondence + large-input probe"),
- "C16": dict(text="Proved about the model: the helper's result is a relabelling of its argument by the recorded shuffle; the harness replays "
-             "the real random.shuffle results in the model and compares graphs exactly, incl. node order.",
+ "C15": dict(text="PARTIAL. Proved about the model for graphs of every size and shape: the pipeline returns a string and the parser accepts it; the "
+             "refinement stops within n rounds; the BFS relabelling (well-founded recursion) never raises and meets its assertion. Python's "
+             "stack, memory, bliss's running time and ANTLR's recursion are outside the model; the probe runs the real pipeline on depth-linear "
+             "families in the thousands of atoms.",
+             note="", tech="Lean 4 proof (totality, termination bound) + correspondence + large-input probe"),
+ "C16": dict(text="Proved about the model: the helper's result is the argument renamed by a bijection of its label set (all atom and bond "
+             "attributes carried), nodes in label order, and differs in its edge set when enforcement applies. The harness replays the real "
+             "random.shuffle results in the model and compares graphs exactly, incl. node order.",
              note="random.shuffle is a recorded parameter; termination of the retry loop is almost-sure, not a theorem.",
              tech="Lean 4 proof (relabelling) + exact correspondence with recorded shuffles + faithfulness probe"),
 }
